@@ -402,9 +402,48 @@ func feasibleOctets(o core.AOutcome, src string) []uint64 {
 			}
 		}
 	}
+	// facts about a value derived from src by adding a constant (m := first - 192): folded per octet
+	type lin struct {
+		hi, lo int
+		c      int64
+		f      [2]uint64
+	}
+	var lins []lin
+	for k, f := range o.Facts {
+		if k == src || strings.HasPrefix(k, src+"<") {
+			continue
+		}
+		cc, terms, okL := core.LinFormOfName(k, 64)
+		if !okL || len(terms) != 1 {
+			continue
+		}
+		for t, coef := range terms {
+			if coef != 1 {
+				continue
+			}
+			if t == src {
+				lins = append(lins, lin{63, 0, cc, f})
+			} else if strings.HasPrefix(t, src+"<") {
+				var h, l int
+				if n, _ := fmt.Sscanf(t[len(src):], "<%d:%d>", &h, &l); n == 2 {
+					lins = append(lins, lin{h, l, cc, f})
+				}
+			}
+		}
+	}
 	var out []uint64
 	for v := uint64(0); v < 256; v++ {
 		ok := true
+		for _, ln := range lins {
+			x := v >> uint(ln.lo)
+			if w := ln.hi - ln.lo + 1; w < 64 {
+				x &= uint64(1)<<uint(w) - 1
+			}
+			x += uint64(ln.c)
+			if x < ln.f[0] || x > ln.f[1] {
+				ok = false
+			}
+		}
 		for _, f := range flds {
 			x := v >> uint(f.lo)
 			if w := f.hi - f.lo + 1; w < 64 {
@@ -457,6 +496,42 @@ func pinBit(v core.AVal, src string, idx int, val uint64) core.AVal {
 		}
 	}
 	return core.AVal{K: core.AInt, Bits: out}
+}
+
+// lengthValueIs folds the returned length for every first octet the path leaves possible (and every
+// second octet, when one is read) and compares it with want: the octets are the whole input of the
+// determinant, so this is the complete case split, whatever arithmetic spells the value.
+func lengthValueIs(v core.AVal, first string, vals []uint64, second string, want func(a, b uint64) uint64) (bool, string) {
+	if v.K != core.AInt {
+		return false, "the length is " + v.String()
+	}
+	seconds := []uint64{0}
+	if second != "" {
+		seconds = nil
+		for b := uint64(0); b < 256; b++ {
+			seconds = append(seconds, b)
+		}
+	}
+	for _, a := range vals {
+		for _, b := range seconds {
+			got, ok := core.EvalBits(v.Bits, func(src string) (uint64, bool) {
+				switch src {
+				case first:
+					return a, true
+				case second:
+					return b, true
+				}
+				return 0, false
+			})
+			if !ok {
+				return false, "the length " + clip(v.String()) + " does not fold on the octets read"
+			}
+			if w := want(a, b); got != w {
+				return false, fmt.Sprintf("first octet %#02x%s: length %d, want %d (%s)", a, map[bool]string{true: fmt.Sprintf(", second %#02x", b), false: ""}[second != ""], got, w, clip(v.String()))
+			}
+		}
+	}
+	return true, ""
 }
 
 func r4lenX(c *core.Ctx) {
@@ -514,7 +589,13 @@ func r4lenX(c *core.Ctx) {
 			}
 			sawShort = true
 			okShort = v.K == core.AInt && v.Bits.IsCopy(6, 0, first, 0) && v.Bits.IsConst(len(v.Bits)-1, 7, 0) && len(r.reads) == 1
-			if !okShort {
+			if !okShort && len(r.reads) == 1 {
+				var why string
+				okShort, why = lengthValueIs(r.o.Ret[0], first, vals, "", func(a, _ uint64) uint64 { return a & 0x7f })
+				if !okShort {
+					detail = "short form: " + why
+				}
+			} else if !okShort {
 				detail = "short form yields " + v.String()
 			}
 		case b7lo == 1 && b6hi == 0: // 10nnnnnn nnnnnnnn
@@ -523,7 +604,13 @@ func r4lenX(c *core.Ctx) {
 			}
 			sawLong = true
 			okLong = len(r.reads) == 2 && v.K == core.AInt && v.Bits.IsCopy(13, 8, first, 0) && v.Bits.IsCopy(7, 0, r.reads[1], 0) && v.Bits.IsConst(len(v.Bits)-1, 14, 0)
-			if !okLong {
+			if !okLong && len(r.reads) == 2 {
+				var why string
+				okLong, why = lengthValueIs(r.o.Ret[0], first, vals, r.reads[1], func(a, b uint64) uint64 { return (a&63)<<8 | b })
+				if !okLong {
+					detail = "long form: " + why
+				}
+			} else if !okLong {
 				detail = "long form yields " + v.String()
 			}
 		case b7lo == 1 && b6lo == 1: // 11mmmmmm
@@ -550,7 +637,13 @@ func r4lenX(c *core.Ctx) {
 				okRange = false
 				detail = fmt.Sprintf("fragment counts in [%d,%d] are accepted", mlo, mhi)
 			}
-			if !okFrag {
+			if !okFrag && len(r.reads) == 1 {
+				var why string
+				okFrag, why = lengthValueIs(r.o.Ret[0], first, vals, "", func(a, _ uint64) uint64 { return (a & 63) * 16384 })
+				if !okFrag {
+					detail = "fragment form: " + why
+				}
+			} else if !okFrag {
 				detail = "fragment form yields " + v.String()
 			}
 		}
@@ -587,7 +680,18 @@ func r14repeatX(c *core.Ctx, R string) {
 		}
 		mlo, _ := factRange(r.o, r.reads[0]+"<5:0>", 6)
 		if !(v.Bits.IsCopy(19, 14, r.reads[0], 0) && mlo >= 1) {
-			okR, why = false, fmt.Sprintf("*repeat is set with length %s (fragment count at least %d)", v.String(), mlo)
+			// whatever arithmetic gives the length: folded for every first octet the path leaves possible
+			vals := feasibleOctets(r.o, r.reads[0])
+			okV := len(vals) > 0 && len(r.reads) == 1
+			for _, a := range vals {
+				got, okE := core.EvalBits(v.Bits, func(src string) (uint64, bool) { return a, src == r.reads[0] })
+				if !okE || got == 0 {
+					okV = false
+				}
+			}
+			if !okV {
+				okR, why = false, fmt.Sprintf("*repeat is set with length %s (fragment count at least %d)", v.String(), mlo)
+			}
 		}
 	}
 	c.Check(okR && sawTrue, R, "aper.parseLength:repeat-implies-progress", fn.Pos(), "*repeat = true only with length 16384*k (k checked to be 1..4)", "parseLength must set *repeat only when it returns a non-zero fragment length (otherwise the fragment loops spin on adversarial input): %s", why)
